@@ -124,6 +124,18 @@ def c04_roundtrip(x=0, s="", marker=False):
     return {"violates": not ok, "yielded": len(out), "end": end}
 
 
+def c04_large_values():
+    """complete frames that hold a large value (a text of 1.5 MiB, a list of 70000 entries) are read like any other"""
+    from flow.record import RecordDescriptor
+
+    D = RecordDescriptor("c04/big", [("string", "s"), ("string[]", "l"), ("varint", "n")])
+    recs = [D(s="a", l=["x"], n=0), D(s="b" * (3 * 512 * 1024), l=[], n=1), D(s="c", l=["y"] * 70000, n=2), D(s="d", l=[], n=3)]
+    data, ends = _write_stream(recs)
+    out, end = _read_all(io.BytesIO(data))
+    ok = [o for o in out] == [_obs(r) for r in recs] and end == "end"
+    return {"violates": not ok, "detail": None if ok else f"4 complete frames (one with a 1.5 MiB text, one with a list of 70000 entries): {len(out)} records read, ended with {end}"}
+
+
 def c04_cut(records=1, cut=0, gz=False, tail=None):
     rng = random.Random(7)
     recs = _gen_records(rng, records)
@@ -236,8 +248,16 @@ def c04_sweep(seed=0, streams=6):
                     except Exception as e:
                         end = f"raise:{type(e).__name__}"
                     cases += 1
-                    if out != obs[: len(out)] or (c == len(gzd) and out != obs):
-                        return {"violates": True, "detail": f"gzip stream {si} cut at byte {c} of {len(gzd)}: yielded records are not an unmodified prefix ({len(out)} yielded, ended {end})", "witness": {"seed": seed, "stream": si, "gzcut": c}, "cases": cases}
+                    # what a standard decompressor recovers from the cut file holds so many complete frames: exactly those records are expected
+                    import zlib
+
+                    try:
+                        inner = zlib.decompressobj(wbits=31).decompress(gzd[:c])
+                    except zlib.error:
+                        inner = b""
+                    want_gz = [o for o, e in zip(obs, ends) if e <= len(inner)]
+                    if out != want_gz or (c == len(gzd) and out != obs):
+                        return {"violates": True, "detail": f"gzip stream {si} cut at byte {c} of {len(gzd)}: {len(out)} record(s) yielded, the recoverable part of the file holds {len(want_gz)} complete frame(s) (ended {end})", "witness": {"seed": seed, "stream": si, "gzcut": c}, "cases": cases}
         # failing / short write at every call index
         for idx in range(2 * (len(recs) + 4) + 2):
             for short in (False, True):
@@ -320,4 +340,4 @@ def c04_model_conformance(seed=0):
     return {"ok": True, "cases": cases, "violates": False}
 
 
-CALLS = {"c04_roundtrip": c04_roundtrip, "c04_cut": c04_cut, "c04_unknown_identifier": c04_unknown_identifier, "c04_fail": c04_fail, "c04_sweep": c04_sweep, "c04_model_conformance": c04_model_conformance}
+CALLS = {"c04_large_values": c04_large_values, "c04_roundtrip": c04_roundtrip, "c04_cut": c04_cut, "c04_unknown_identifier": c04_unknown_identifier, "c04_fail": c04_fail, "c04_sweep": c04_sweep, "c04_model_conformance": c04_model_conformance}
